@@ -51,7 +51,7 @@ var trTargets = []trTarget{
 	{Pkg: evm + "x/evm/keeper", Recv: "StateTransition", Name: "buyGas"},
 	{Pkg: evm + "x/evm/keeper", Recv: "StateTransition", Name: "preCheck"},
 	{Pkg: evm + "x/evm/keeper", Recv: "StateTransition", Name: "refundGas"},
-	{Pkg: evm + "x/evm/types", Name: "BinSearch", Fuel: "hi"},
+	{Pkg: evm + "x/evm/types", Name: "BinSearch", Fuel: "hi + 1"},
 	{Pkg: evm + "types", Name: "BlockGasLimit"},
 	{Pkg: geth + "consensus/misc", Name: "CalcBaseFee"},
 	{Pkg: geth + "core", Name: "IntrinsicGas"},
@@ -145,6 +145,24 @@ func (g *gen) field(st, field, leanType, note string) {
 	s.fields[field] = leanType
 	if note != "" {
 		s.notes[field] = note
+	}
+}
+
+func (g *gen) snapshotFields() map[string]map[string]string {
+	out := map[string]map[string]string{}
+	for n, s := range g.structs {
+		out[n] = cpMap(s.fields)
+	}
+	return out
+}
+
+func (g *gen) restoreFields(snap map[string]map[string]string) {
+	for n, s := range g.structs {
+		if old, ok := snap[n]; ok {
+			s.fields = cpMap(old)
+		} else {
+			s.fields = map[string]string{}
+		}
 	}
 }
 
